@@ -44,7 +44,7 @@ func (c16) Batches(tier string, seed uint64) []core.Batch {
 func (c16) Mandatory(tier string) []string {
 	return []string{"flip:debian-binary", "flip:control", "flip:data", "flip:signature", "flip:lib-rejected", "untampered-verified", "decoy:control", "decoy:data", "decoy:same-name",
 		"decoy:before-genuine", "decoy:after-genuine", "role:absent", "decoy:near-miss-name", "exposed-content-is-signed-content", "sequence:good-bad-empty-absent-good", "keyring:unrelated", "keyring:empty", "keyring:signer+others", "codec:stored", "codec:gz",
-		"role:origin", "role:maint", "role:archive", "ranges:load-subset-of-verify"}
+		"role:origin", "role:maint", "role:archive"}
 }
 
 type c16Case struct {
@@ -66,6 +66,9 @@ func signedPackage(r *core.Rand, tier, role string, signer int, gz bool) []model
 		ext = "gz"
 	}
 	m := debModel{ControlText: d.sb.String(), ControlExt: ext, DataExt: ext, Binary: "2.0\n"}
+	if r.Bool() { // deb(5) allows further lines after the format version; they are signed too
+		m.Binary = "2.0\nreserved for future use " + r.Str("abcdef", 6) + "\n"
+	}
 	m.ControlFiles = []tarEnt{{Name: "./control", Type: '0', Data: []byte(m.ControlText), Mode: 0o644}}
 	m.DataFiles = []tarEnt{{Name: "./usr/", Type: '5', Mode: 0o755}, {Name: "./usr/f", Type: '0', Data: r.Bytes(r.Range(1, 600)), Mode: 0o644}}
 	ms, _ := m.members()
@@ -224,12 +227,19 @@ func (p c16) run(c *core.C, cs c16Case) {
 					}
 				}
 			}
+			// evidence only (which members an implementation touches while loading is not part of the property;
+			// exposure of unsigned content is judged by the exposed-content comparison above)
+			subset := true
 			for m := range inLoad {
 				if !inVerify[m] {
-					c.Failf("member %q was read while loading but not while verifying the signature", cs.Members[m].Name)
+					subset = false
 				}
 			}
-			c.Cover("ranges:load-subset-of-verify")
+			if subset {
+				c.Cover("ranges:load-subset-of-verify")
+			} else {
+				c.Cover("ranges:load-read-a-member-that-verify-did-not(not judged)")
+			}
 		}
 		d.Close()
 	}
